@@ -212,6 +212,58 @@ func unit(ki, mode int) harness.Unit {
 				break
 			}
 		}
+		// IV install histories: the IV is an exported variable, so a caller can install its own slice
+		// by assignment as well as through SetIV. Every sequence of up to 3 installs over
+		// {assign slice 1, assign slice 2, SetIV(slice 3), SetIV(slice 4)}: the mode runs under the
+		// IV installed last and none of the caller's four slices is ever written.
+		{
+			vals := [][]byte{pu.Msg(71, 16), pu.Msg(72, 16), pu.Msg(73, 16), pu.Msg(74, 16)}
+			insNames := []string{"IV=slice1", "IV=slice2", "SetIV(slice3)", "SetIV(slice4)"}
+			var seqs [][]int
+			var gen func(cur []int)
+			gen = func(cur []int) {
+				if len(cur) > 0 {
+					seqs = append(seqs, append([]int{}, cur...))
+				}
+				if len(cur) == 3 {
+					return
+				}
+				for o := 0; o < 4; o++ {
+					gen(append(cur, o))
+				}
+			}
+			gen(nil)
+		hist:
+			for _, seq := range seqs {
+				own := make([][]byte, 4)
+				for i := range own {
+					own[i] = append([]byte{}, vals[i]...)
+				}
+				names := ""
+				for _, o := range seq {
+					if o < 2 {
+						sm4.IV = own[o]
+					} else if err := sm4.SetIV(own[o]); err != nil {
+						c.Violate("setiv-error", fmt.Sprintf("SetIV(16 bytes) failed: %v", err), nil, nil)
+					}
+					names += insNames[o] + " "
+					pt := pu.Msg(75, 37)
+					got, err := call(mode, keys[0], pt, true)
+					want := refEnc(mode, keys[0], vals[o], pt)
+					c.Add("evaluations", 1)
+					if err != nil || !bytes.Equal(got, want) {
+						c.Violate(fmt.Sprintf("iv-install-history:%s-not-under-last-iv", modeNames[mode]), fmt.Sprintf("after the installs [%s] %s does not encrypt under the IV installed last: got %s want %s (%v)", names, modeNames[mode], pu.Hex(got), pu.Hex(want), err), nil, nil)
+						break hist
+					}
+					for i := range own {
+						if !bytes.Equal(own[i], vals[i]) {
+							c.Violate(fmt.Sprintf("iv-install-history:caller-slice-written:%s", modeNames[mode]), fmt.Sprintf("after the installs [%s] the caller's IV slice %d was overwritten: %s, was %s", names, i+1, pu.Hex(own[i]), pu.Hex(vals[i])), nil, nil)
+							break hist
+						}
+					}
+				}
+			}
+		}
 		sm4.SetIV(make([]byte, 16))
 		for _, n := range []int{0, 15, 17, 24, 32} {
 			if _, err := call(mode, make([]byte, n), []byte("x"), true); err == nil {
@@ -368,7 +420,7 @@ func reuseUnit() harness.Unit {
 var Prop = &harness.Prop{
 	ID:          "C11",
 	Level:       "exploration",
-	Rule:        "full product of 3 keys x 3 IV settings (default zero, pattern, all-ones via SetIV) x every plaintext length of the tier x tail patterns (position-dependent, and last 1/2/v bytes equal to v for v in {pad byte, 1, 2, 16, pad-1}) x 4 modes x spare capacity {0,1,16,64}; ciphertext compared with crypto/cipher's mode over the independent SM4 on the PKCS#7-padded input; the STANDARD ciphertext is decrypted by the helper; inputs, key, IV and spare capacity are canary-checked. Cross-helper call histories: every sequence of length 4 (thorough 5) over {SetIV(iv1), SetIV(iv2), Sm4Ecb, Sm4Cbc, Sm4CFB, Sm4OFB, GCMEncrypt with a 12- and a 16-byte nonce, GCMDecrypt} in one process: each mode helper must use the IV set last by SetIV and each GCM call must equal standard GCM, whatever ran before. A case is distinct/non-trivial per (iv, length, tail, spare, mode) or per history. Fresh-process unit: every sequence of one or two helper calls over mode x {zero key, example key} x direction, default IV or SetIV first, each in a new process. After every refused SetIV (5 lengths, non-zero content) each mode still runs under the IV accepted before.",
+	Rule:        "full product of 3 keys x 3 IV settings (default zero, pattern, all-ones via SetIV) x every plaintext length of the tier x tail patterns (position-dependent, and last 1/2/v bytes equal to v for v in {pad byte, 1, 2, 16, pad-1}) x 4 modes x spare capacity {0,1,16,64}; ciphertext compared with crypto/cipher's mode over the independent SM4 on the PKCS#7-padded input; the STANDARD ciphertext is decrypted by the helper; inputs, key, IV and spare capacity are canary-checked. Cross-helper call histories: every sequence of length 4 (thorough 5) over {SetIV(iv1), SetIV(iv2), Sm4Ecb, Sm4Cbc, Sm4CFB, Sm4OFB, GCMEncrypt with a 12- and a 16-byte nonce, GCMDecrypt} in one process: each mode helper must use the IV set last by SetIV and each GCM call must equal standard GCM, whatever ran before. A case is distinct/non-trivial per (iv, length, tail, spare, mode) or per history. Fresh-process unit: every sequence of one or two helper calls over mode x {zero key, example key} x direction, default IV or SetIV first, each in a new process. After every refused SetIV (5 lengths, non-zero content) each mode still runs under the IV accepted before. IV install histories: every sequence of up to 3 installs over {assign caller slice 1/2 to the exported IV, SetIV(slice 3/4)}: each mode runs under the IV installed last and none of the four caller slices is written.",
 	Assumptions: []string{"refsm4 correct (anchored on GM/T 0002 vectors); Go's crypto/cipher CBC/CFB/OFB are the standard definitions (CFB = full-block CFB-128)"},
 	Bounds: func(tier string) string {
 		if tier == "thorough" {
